@@ -3,7 +3,10 @@
 
   ENCODING (ASCII, one line).
     request   := <vers> ' ' <routes> ' ' <ver> ' ' <opt> ' ' <count> ' ' <items>
-    vers      := '-' | <ver> {',' <ver>}        argument list of SetSupportedProtocolVersions
+    vers      := <ver> {',' <ver>}              argument list of SetSupportedProtocolVersions
+               | '=' <ver> {',' <ver>}          executor left at its default; the list is what the harness read
+                                                 off the real executor (DiscoverVersions) on this run
+               | '-'                             (legacy; not produced by the harness) default, from the model's fallback copy
     ver       := <int> '.' <int>                 major.minor
     routes    := '-' | <nat> {',' <nat>}         operation codes registered with Route
     opt       := <nat>                           BatchErrorContinuationOption (0 = absent)
@@ -11,9 +14,10 @@
     items     := '-' | <item> {',' <item>}
     item      := <op> ':' <id> ':' <ext> ':' <kind> ':' <acts> ':' <out>
       op   := <nat>                              Operation
-      id   := '-' | <nat>                        UniqueBatchItemID (absent | 4 bytes big endian)
+      id   := '-' | <nat> | 'x' <hex>            UniqueBatchItemID (absent or empty | 4 bytes big endian | any bytes)
       ext  := 'n' | 'o' | 'c'                    no MessageExtension | non-critical | critical
-      kind := 'u' | 'd'                          UnknownPayload | DiscoverVersionsRequestPayload
+      kind := 'u' | 'd' | 'a' | 'q' | 'g'        UnknownPayload | DiscoverVersionsRequestPayload | registered typed
+                                                 payloads (Activate, Query, Get request payloads)
       acts := '-' | <act> {'.' <act>}            placeholder accesses of the handler
       act  := 'r' | 'c' | 's' <nat>              read | clear | set (0 = "", n = "id-n")
       out  := 'ok' | 'e' <nat> | 'x' | 'P' <nat> | 'p'
@@ -21,7 +25,8 @@
 
     batch.exec <request>
       → ok <ver> <count> <ritems> calls=<calls> obs=<obs>
-        ritems := '-' | <ritem> {',' <ritem>}    ritem := <op> ':' <id> ':' ('S' | 'F' <reason>)
+        ritems := '-' | <ritem> {',' <ritem>}    ritem := <op> ':' <id> ':' ('S' | 'F')   (result reasons are not part of
+                                                 the answer: C09 does not speak about them)
         calls  := '-' | <nat> {'.' <nat>}        item indices whose handler ran, in order
         obs    := '-' | <idx> ':' <val> {'.' …}  values read by the handlers, in order
 
@@ -64,14 +69,21 @@ private def parseOut (s : String) : Option Outcome :=
   else if s.startsWith "P" then (s.drop 1).toString.toNat?.map .panicTyped
   else none
 
+/-- ids that are not 4 bytes long: `0x01 ‖ bytes` read big endian, shifted beyond the 32-bit range of the
+    4-byte ids (injective, and disjoint from them). -/
+private def codeId (bs : List UInt8) : Nat := beVal (1 :: bs) * 2 ^ 32
+
 private def parseItem (s : String) : Option Batch.Item :=
   match s.splitOn ":" with
   | [op, id, ext, kind, acts, out] => do
     let op ← op.toNat?
-    let id ← if id = "-" then some none else id.toNat?.map some
+    let id ← if id = "-" then some none
+      else if id.startsWith "x" then (bytesOfHex (id.drop 1).toString).map (fun bs => some (codeId bs))
+      else id.toNat?.map some
     let ext ← match ext with
       | "n" => some none | "o" => some (some false) | "c" => some (some true) | _ => none
-    let disc ← match kind with | "u" => some false | "d" => some true | _ => none
+    let disc ← match kind with
+      | "u" | "a" | "q" | "g" => some false | "d" => some true | _ => none
     let acts ← parseList acts "." parseAct
     let out ← parseOut out
     pure { op := op, id := id, ext := ext, discover := disc, acts := acts, out := out }
@@ -80,7 +92,7 @@ private def parseItem (s : String) : Option Batch.Item :=
 def parseRequest (s : String) : Option (Srv × Req) :=
   match s.splitOn " " with
   | [vers, routes, ver, opt, count, items] => do
-    let vers ← parseList vers "," parseVer
+    let vers ← parseList (if vers.startsWith "=" then (vers.drop 1).toString else vers) "," parseVer
     let routes ← parseList routes "," String.toNat?
     let ver ← parseVer ver
     let opt ← opt.toNat?
@@ -95,11 +107,13 @@ private def joinOr (sep : String) (xs : List String) : String :=
 
 private def renderId : Option Nat → String
   | none => "-"
-  | some n => toString n
+  | some n =>
+    if n < 2 ^ 32 then toString n
+    else "x" ++ hexOfBytes ((natToBytesBE (n / 2 ^ 32)).drop 1)
 
 private def renderRItem (r : RItem) : String :=
   toString r.op ++ ":" ++ renderId r.id ++ ":" ++
-    (if r.failed then "F" ++ toString r.reason else "S")
+    (if r.failed then "F" else "S")
 
 private def renderObs (obs : List (Nat × Val)) : String :=
   joinOr "." (obs.map fun (i, v) => toString i ++ ":" ++ toString v)
